@@ -55,17 +55,18 @@ TReg == /\ IsEvent("ack.reg")
              /\ acks' = acks \cup {k}
              /\ tpc' = [tpc EXCEPT ![k] = IF Rec.to THEN "sleep" ELSE "none"]
              /\ epc' = [epc EXCEPT ![k] = "reg"]
-             /\ kOfH' = Bind(kOfH, Rec.h, k) /\ kOfId' = Bind(kOfId, Rec.id, k)
+             /\ kOfH' = Bind(kOfH, Rec.h, k) /\ kOfId' = Bind(kOfId, <<Rec.s, Rec.id>>, k)
              /\ hasTO' = IF Rec.to THEN hasTO \cup {k} ELSE hasTO
         /\ UNCHANGED <<called, timedOut, sendBuf, connected, sent, rpc, cb, dups, sbLocked, cur>>
 
 \* offline frames of an ack-carrying emit: Buffer(k, n); the logged buffer must be the specification's
-AsIds(buf) == [i \in 1..Len(buf) |-> IF buf[i] \in DOMAIN kOfId THEN kOfId[buf[i]] ELSE 0 - 1]
+AsIds(buf) == [i \in 1..Len(buf) |-> IF <<Rec.s, buf[i]>> \in DOMAIN kOfId THEN kOfId[<<Rec.s, buf[i]>>] ELSE 0 - 1]
+SId == <<Rec.s, Rec.id>>
 SpecBuf == [i \in 1..Len(sendBuf) |-> sendBuf[i][1]]
 
 TAppend == /\ IsEvent("sendbuf.append")
-           /\ IF Rec.id \in DOMAIN kOfId
-                THEN LET k == kOfId[Rec.id] IN
+           /\ IF SId \in DOMAIN kOfId
+                THEN LET k == kOfId[SId] IN
                        /\ epc[k] = "reg"
                        /\ sendBuf' = sendBuf \o Frames(k, Rec.n)
                        /\ epc' = [epc EXCEPT ![k] = "out"]
@@ -83,8 +84,8 @@ TFlush == /\ IsEvent("sendbuf.flush")
 
 \* onAck: found must agree with the specification's ack map; the entry is deleted
 TLookup == /\ IsEvent("ack.lookup")
-           /\ IF Rec.id \in DOMAIN kOfId
-                THEN LET k == kOfId[Rec.id] IN
+           /\ IF SId \in DOMAIN kOfId
+                THEN LET k == kOfId[SId] IN
                        /\ Rec.found = (k \in acks)
                        /\ Rec.found => (Rec.h \in DOMAIN kOfH /\ kOfH[Rec.h] = k)
                        /\ acks' = acks \ {k}
@@ -109,14 +110,14 @@ TTimerDecide == /\ IsEvent("ack.timer.decide")
                 /\ UNCHANGED <<emitted, acks, called, sendBuf, connected, sent, rpc, cb, dups, sbLocked, epc>> /\ U
 
 TPurgeAcks == /\ IsEvent("ack.purge")
-              /\ Rec.id \in DOMAIN kOfId
-              /\ PurgeAcks(kOfId[Rec.id])
+              /\ SId \in DOMAIN kOfId
+              /\ PurgeAcks(kOfId[SId])
               /\ U
 
 \* the purge keeps exactly the frames of other ids, in order
 TPurgeBuf == /\ IsEvent("sendbuf.purge")
-             /\ Rec.id \in DOMAIN kOfId
-             /\ PurgeBuf(kOfId[Rec.id])
+             /\ SId \in DOMAIN kOfId
+             /\ PurgeBuf(kOfId[SId])
              /\ AsIds(Rec.rem) = [i \in 1..Len(sendBuf') |-> sendBuf'[i][1]]
              /\ U
 
@@ -138,8 +139,16 @@ TQuiesce == /\ IsEvent("quiesce")
 
 TNote == IsEvent("note") /\ UNCHANGED vars /\ U
 
+\* records of handlers/sockets that do not belong to this scenario's emits (a timer left over
+\* from an earlier scenario): no effect on this scenario's state
+TForeign == /\ \/ (IsEvent("ack.timer.decide") /\ Rec.h \notin DOMAIN kOfH)
+               \/ (IsEvent("ack.call.decide") /\ Rec.h \notin DOMAIN kOfH)
+               \/ (IsEvent("ack.purge") /\ SId \notin DOMAIN kOfId)
+               \/ (IsEvent("sendbuf.purge") /\ SId \notin DOMAIN kOfId)
+            /\ UNCHANGED vars /\ U
+
 TraceNext == TReset \/ TEmitStart \/ TReg \/ TAppend \/ TFlush \/ TLookup \/ TCallDecide \/ TTimerDecide
-             \/ TPurgeAcks \/ TPurgeBuf \/ TCb \/ TQuiesce \/ TNote
+             \/ TPurgeAcks \/ TPurgeBuf \/ TCb \/ TQuiesce \/ TNote \/ TForeign
 
 TraceSpec == TraceInit /\ [][TraceNext]_tvars
 
